@@ -314,7 +314,7 @@ func vC03DRun(t *testing.T, c *vh.Case, seed int64, cm vC03DCancel, scoped bool)
 }
 
 func TestVerif_C03_dual(t *testing.T) {
-	vh.Run(t, vh.Spec{Prop: "C03", Unit: "dual", Quick: 300, Thorough: 5000, CostMs: 120,
+	vh.Run(t, vh.Spec{Prop: "C03", Unit: "dual", Quick: 300, Thorough: 5000, CostMs: 300,
 		Rule: "dual client over two simulated networks (C15 generator; 2/3 of the scenarios with 20-100% failing / silent / slow-dialing peers per network, each table empty in ~1/4); one operation per scenario among Provide, PutValue, GetValue, SearchValue (quorum none/0/1/2/K), FindPeer, FindProvidersAsync (count 0/1/2/5/K); the scenario is run un-cancelled, then rebuilt from the same seed and run cancelled before the call and at PRNG-chosen boundary instants of the un-cancelled run (quick: 3 instants, cancel() or deadline; thorough: up to 12); non-trivial = the un-cancelled run made RPCs and at least one cancelled run had its context end while the call was running; distinct by (operation, parameters, table emptiness, number of boundaries)",
 		Clauses: []string{"return-bounded", "cancel-prompt", "chan-closed", "quiet-after-return", "no-leak", "closed-empty"}},
 		func(c *vh.Case) {
